@@ -16,7 +16,8 @@ EXPLANATION = (
     "both renorm templates decode loop.index0 as (index0/nelem | int, index0 % nelem) into IDX_ELEM_ names of the same network.elements; "
     "RenormAbundance multiplies ab[IDX_s] by the factor of the same position of zip(network.species, renorm.factor); R3 both Renorm drivers "
     "call InitRenorm, solve A r = ab_ref_ into a vector distinct from the stored reference, then RenormAbundance(r, ab); SetReferenceAbund "
-    "normalises by the hydrogen entry; R4 every divisor `A` (mass number) is guarded for the species classes whose mass number is zero.")
+    "normalises by the hydrogen entry; R4 every divisor `A` (mass number) is guarded for the species classes whose mass number is zero; R5 "
+    "Network.elements is exactly the atomic members of Network.species and both are handed to NetworkInfo from the same network.")
 ASSUMPTIONS = [
     "with M_ij = sum_s c_si c_sj A_j ab_s/(A_s H) and ab'_s = ab_s sum_j c_sj A_j r_j / A_s the new element totals are H*(M r)_i: the paper argument of DESIGN C16",
     "conditioning / singularity of the matrix and finiteness for extreme abundances are not decided",
@@ -43,8 +44,51 @@ def flat_mult(v):
     return [v]
 
 
+def _r5(ctx, pkg):
+    """The elements the matrix ranges over are ALL atomic species of the species list the factors range over."""
+    import ast
+    NF = "naunet/network.py"
+    fn = pkg.cls("Network").methods.get("elements")
+    if fn is None:
+        ctx.missing("R5", "Network.elements", (NF, 0), "getter vanished")
+        return
+    ctx.saw(NF, "Network.elements")
+    fl = Flow(fn, NF)
+    rets = [f for f in fl.facts if f.kind == "return"]
+    ok = False
+    found = "; ".join(show(simp(f.value))[:100] for f in rets)
+    if len(rets) == 1:
+        v = simp(rets[0].value)
+        if v[0] == "call" and v[1] in (("global", "list"), ("global", "sorted")) and len(v[2]) == 1:
+            v = v[2][0]
+        m = as_map(v)
+        if m:
+            var, elt, src, conds = m[0], m[1], m[2], m[3]
+            ok = elt == var and src == ("attr", ("param", "self"), "species") and tuple(conds) == (("attr", var, "is_atom"),)
+    ctx.check(ok, "R5", "Network.elements = atoms of Network.species", (NF, fn.lineno),
+              "every atomic member of the species list (reacting or merely required) is an element" if ok else
+              "the element list is not `the atomic members of self.species`: an atomic species that is in the species list but not in the source used here "
+              "(e.g. a required species that takes part in no reaction) gets a factor `()` and no matrix row",
+              expected="[spec for spec in self.species if spec.is_atom]", found=found)
+    n = 0
+    for f in pkg.files:
+        if not f.endswith(".py") or f.startswith("naunet/examples/"):
+            continue
+        for c in ast.walk(pkg.modules[f]):
+            if isinstance(c, ast.Call) and ast.unparse(c.func).split(".")[-1] == "NetworkInfo":
+                n += 1
+                args = {k.arg: k.value for k in c.keywords}
+                e = c.args[0] if len(c.args) > 0 else args.get("elements")
+                sp = c.args[1] if len(c.args) > 1 else args.get("species")
+                good = isinstance(e, ast.Attribute) and isinstance(sp, ast.Attribute) and e.attr == "elements" and sp.attr == "species" and ast.unparse(e.value) == ast.unparse(sp.value)
+                ctx.check(good, "R5", f"{f.rsplit('/', 1)[1]}:NetworkInfo(elements, species)", (f, c.lineno), "elements and species of the same network are handed to the generator",
+                          expected="NetworkInfo(network.elements, network.species, ...)", found=f"{ast.unparse(e) if e else None}, {ast.unparse(sp) if sp else None}")
+    ctx.floor("R5", "NetworkInfo constructions", n, 2)
+
+
 def check(ctx):
     pkg = package(ctx.tree)
+    _r5(ctx, pkg)
     fn = pkg.method("TemplateLoader", "_prepare_renorm_content")
     ctx.saw(FILE, "TemplateLoader._prepare_renorm_content")
     fl = Flow(fn, FILE)
@@ -335,6 +379,8 @@ def _r3(ctx):
 
 
 MUTANTS = [
+    {"name": "elements-from-reacting-species", "file": "naunet/network.py", "old": "        return [spec for spec in self.species if spec.is_atom]", "new": "        return sorted(s for s in self._reactants | self._products if s.is_atom)", "rules": ["R5"]},
+    {"name": "elements-neutral-only", "file": "naunet/network.py", "old": "        return [spec for spec in self.species if spec.is_atom]", "new": "        return [spec for spec in self.species if spec.is_atom and not spec.is_grain]", "rules": ["R5"]},
     {"name": "A-of-row-element", "file": FILE, "old": "f\"{(ci * cj * elements[jele].A)} * ab[IDX_{spec.alias}]", "new": "f\"{(ci * cj * elements[iele].A)} * ab[IDX_{spec.alias}]", "rules": ["R1"]},
     {"name": "matrix-electron-test-removed", "file": FILE, "old": "if not spec.is_electron and ci and cj:", "new": "if ci and cj:", "rules": ["R1"]},
     {"name": "factor-electron-dropped", "file": FILE, "old": 'renorm.append(1.0 if spec.is_electron else " + ".join(factor))', "new": 'renorm.append(" + ".join(factor))', "rules": ["R1"]},
